@@ -236,6 +236,17 @@ class MiniEval:
     def assign(self, target, value):
         if isinstance(target, ast.Name):
             self.env[target.id] = value
+        elif isinstance(target, ast.Subscript):
+            base = self.ev(target.value)
+            if isinstance(base, dict):
+                base[self.ev(target.slice)] = value
+            elif isinstance(base, list):
+                idx = self.ev(target.slice)
+                if not isinstance(idx, int) or not -len(base) <= idx < len(base):
+                    raise _Fault('IndexError')
+                base[idx] = value
+            else:
+                raise _Fault('TypeError')
         elif isinstance(target, ast.Attribute):
             key = norm(target)
             hook = self.env.get('__setattr__')
